@@ -325,6 +325,7 @@ func runC10(c *eng.Ctx) {
 		RunPartialOutputs(c, "C10", cr.next)
 		RunDynamicTypeDisposables(c, cr.next)
 		RunNonComparableDisposables(c, cr.next)
+		RunClosedDuringBuild(c, cr.next)
 		if C10Overlap != nil {
 			C10Overlap(c, cr.next)
 		}
